@@ -5,6 +5,7 @@ import Kitoken.Spec.Decoder
 import Kitoken.Spec.Pieces
 import Kitoken.Spec.UnigramCheck
 import Kitoken.Spec.Split
+import Kitoken.Spec.CharsMap
 namespace Kitoken.Driver
 
 open Kitoken Std
@@ -296,6 +297,67 @@ def handleNorm (args : List String) (_impl : List String) : String :=
         | some r => showResBytes r
       s!"{model} || HOLDS-NA"
     | _, _, _, _ => "BAD-OP"
+  | _ => "BAD-OP"
+
+end Kitoken.Driver
+
+namespace Kitoken.Driver
+open Kitoken Std
+
+/-- `NORMS <slot> <start> <toEnd> <text>`: the slot's normalization steps on one segment. -/
+def handleNormSlot (st : State) (args : List String) (_impl : List String) : String :=
+  let (args, tab) := splitOracle args
+  match args with
+  | [slot, start, toEnd, text] =>
+    match slot.toNat?.bind (st.toks[·]?), start.toNat?, parseBool toEnd, parseHex text with
+    | some tk, some start, some toEnd, some t =>
+      let ext := mkExt tab
+      let model := match configNormalize ext.norm tk.config.normalization ⟨start, toEnd⟩ t with
+        | none => "MISS normalize"
+        | some r => showResBytes r
+      -- C12 verdict when the slot's normalization is a character map alone
+      let verdict :=
+        match tk.config.normalization, ext.norm.graphemes t with
+        | [.charsMap m], some gs =>
+          let spec := s!"OK {toHex (Spec.normalizeSpec m t gs)}"
+          let implStr := " ".intercalate _impl
+          if t.isEmpty then "HOLDS-NA"
+          else if implStr == spec then "HOLDS"
+          else "FAILS charsmap-spec"
+        | _, _ => "HOLDS-NA"
+      s!"{model} || {verdict}"
+    | _, _, _, _ => "BAD-OP"
+  | _ => "BAD-OP"
+
+def showArray (a : Array UInt32) : String := toHex (a.toList.flatMap CharsMap.wordLE)
+
+/-- `CMAP_LOAD <blob>`: the blob loader. Verdict: the layout (size field, whole words, rest). -/
+def handleCmapLoad (args : List String) (impl : List String) : String :=
+  match args with
+  | [blob] =>
+    match parseHex blob with
+    | some data =>
+      let model := match CharsMap.load data with
+        | .ok m => s!"OK {showArray m.array} {toHex m.normalized}"
+        | .err _ => "ERR"
+        | .panic _ => "PANIC"
+      let verdict :=
+        match impl with
+        | ["PANIC"] => "FAILS panic"
+        | ["ERR"] =>
+          (match data with
+            | a :: b :: c :: d :: rest => if (CharsMap.le32 a b c d).toNat ≤ rest.length then "FAILS rejected-well-formed-blob" else "HOLDS"
+            | _ => "HOLDS")
+        | ["OK", arr, norm] =>
+          (match data, parseHex arr, parseHex norm with
+            | a :: b :: c :: d :: rest, some arr, some norm =>
+              let size := (CharsMap.le32 a b c d).toNat
+              if size ≤ rest.length && arr == (rest.take (size / 4 * 4)) && norm == rest.drop size then "HOLDS"
+              else "FAILS layout"
+            | _, _, _ => "FAILS accepted-short-blob")
+        | _ => "NO-VERDICT"
+      s!"{model} || {verdict}"
+    | none => "BAD-OP"
   | _ => "BAD-OP"
 
 end Kitoken.Driver
